@@ -200,7 +200,7 @@ class C03(RailsProp):
 def _poison_kind(sc, rec, ev, v):
     """Classify how a later turn went wrong.  'spurious-refusal': a rail that was invoked and allowed
     the text nevertheless produced its refusal and the pipeline stopped there (fail closed)."""
-    if v.oracle in ("input-rails-sequence", "output-rails-sequence") and isinstance(rec.reply, str) and not RR.LLM_TEXT_RE.search(rec.reply):
+    if v.oracle in ("input-rails-sequence", "output-rails-sequence") and not RR.LLM_TEXT_RE.search(rec.reply if isinstance(rec.reply, str) else ""):
         side = "in" if v.oracle.startswith("input") else "out"
         inv = [e for e in ev if e["kind"] == "rail" and e["rail"].startswith(side)]
         if inv and inv[-1].get("verdict") in ("allow", "rewrite") and RR.reply_is_block_of(sc, rec, inv[-1]["rail"]):
